@@ -1160,6 +1160,33 @@ func (pp *panicProver) bytecodeShape(facts []pedge, index, base ssa.Value, walke
 			return fmt.Sprintf("operand byte %d after an opcode byte that is proven to lie inside the code: present for well-formed programs (whole instructions are emitted; R-EMITLEN)", idx.off)
 		}
 	}
+	// (e) a helper that is handed the offset of an instruction: at every one of
+	// its call sites the argument is the walker's offset or a recorded offset
+	if idx.term != "" && idx.off >= 0 && idx.off <= 2 {
+		for i, prm := range pp.fn.Params {
+			if prm.Name() != idx.term || !isInt(prm.Type()) {
+				continue
+			}
+			sites, all := 0, true
+			for _, g := range pp.p.LibFns {
+				for _, b := range g.Blocks {
+					for _, ins := range b.Instrs {
+						c, ok := staticCalleeIs(ins, pp.fn)
+						if !ok || i >= len(c.Call.Args) {
+							continue
+						}
+						sites++
+						if !instructionOffset(pp.p, g, c.Call.Args[i]) {
+							all = false
+						}
+					}
+				}
+			}
+			if sites > 0 && all {
+				return fmt.Sprintf("parameter+%d, where the parameter is, at each of the %d call sites, the start of an instruction handed out by the bytecode walker (directly or recorded): within the code for well-formed programs (R-EMITLEN)", idx.off, sites)
+			}
+		}
+	}
 	if !walkerCb {
 		return ""
 	}
@@ -1199,6 +1226,28 @@ func (pp *panicProver) bytecodeShape(facts []pedge, index, base ssa.Value, walke
 		}
 	}
 	return ""
+}
+
+// instructionOffset: v (a value of fn) is the offset of an instruction as the
+// bytecode walker hands it out: the offset parameter of a walker callback, or
+// a field that is only ever assigned such an offset.
+func instructionOffset(p *Program, fn *ssa.Function, v ssa.Value) bool {
+	if prm, ok := v.(*ssa.Parameter); ok && isWalkerCallback(fn) && isInt(prm.Type()) {
+		for _, q := range fn.Params {
+			if isInt(q.Type()) {
+				return q == prm // the first int parameter is the offset
+			}
+		}
+	}
+	if ld, ok := v.(*ssa.UnOp); ok && ld.Op == token.MUL {
+		if fa, ok := ld.X.(*ssa.FieldAddr); ok && positionField(p, fa) {
+			return true
+		}
+	}
+	if f, ok := v.(*ssa.Field); ok && positionFieldOf(p, f.X.Type(), f.Field) {
+		return true
+	}
+	return false
 }
 
 func stripAddConst(v ssa.Value) ssa.Value {
@@ -1328,7 +1377,7 @@ func (pp *panicProver) positionParam(index, base ssa.Value) string {
 					continue
 				}
 				sites++
-				if !emitPosition(c.Call.Args[pi], a.emit, three, oc, 0) {
+				if !emitPosition(pp.p, c.Call.Args[pi], a.emit, three, oc, 0) {
 					return ""
 				}
 			}
@@ -1342,18 +1391,43 @@ func (pp *panicProver) positionParam(index, base ssa.Value) string {
 
 // emitPosition: v is the result of emit(<3-byte opcode>, …), or an element of a
 // slice that only such results are appended to.
-func emitPosition(v ssa.Value, emit *ssa.Function, three map[string]bool, oc *opcodes, depth int) bool {
+func emitPosition(p *Program, v ssa.Value, emit *ssa.Function, three map[string]bool, oc *opcodes, depth int) bool {
 	if depth > 6 {
 		return false
 	}
 	switch x := v.(type) {
+	case *ssa.Parameter:
+		// handed in by the callers: every one of them must pass such a position
+		f := x.Parent()
+		idx := -1
+		for i, q := range f.Params {
+			if q == x {
+				idx = i
+			}
+		}
+		sites := 0
+		for _, g := range p.LibFns {
+			for _, b := range g.Blocks {
+				for _, ins := range b.Instrs {
+					c, ok := staticCalleeIs(ins, f)
+					if !ok || idx < 0 || idx >= len(c.Call.Args) {
+						continue
+					}
+					sites++
+					if !emitPosition(p, c.Call.Args[idx], emit, three, oc, depth+1) {
+						return false
+					}
+				}
+			}
+		}
+		return sites > 0
 	case *ssa.Call:
 		if x.Call.StaticCallee() == emit && len(x.Call.Args) >= 2 {
 			return three[oc.ssaName(x.Call.Args[1])]
 		}
 	case *ssa.Phi:
 		for _, e := range x.Edges {
-			if !emitPosition(e, emit, three, oc, depth+1) {
+			if !emitPosition(p, e, emit, three, oc, depth+1) {
 				return false
 			}
 		}
@@ -1364,13 +1438,13 @@ func emitPosition(v ssa.Value, emit *ssa.Function, three map[string]bool, oc *op
 		}
 		// element of a local slice: every append to it appends emit positions
 		if ia, ok := x.X.(*ssa.IndexAddr); ok {
-			return sliceOfEmitPositions(ia.X, emit, three, oc, depth+1, map[ssa.Value]bool{})
+			return sliceOfEmitPositions(p, ia.X, emit, three, oc, depth+1, map[ssa.Value]bool{})
 		}
 	}
 	return false
 }
 
-func sliceOfEmitPositions(s ssa.Value, emit *ssa.Function, three map[string]bool, oc *opcodes, depth int, seen map[ssa.Value]bool) bool {
+func sliceOfEmitPositions(p *Program, s ssa.Value, emit *ssa.Function, three map[string]bool, oc *opcodes, depth int, seen map[ssa.Value]bool) bool {
 	if depth > 8 || seen[s] {
 		return seen[s]
 	}
@@ -1378,7 +1452,7 @@ func sliceOfEmitPositions(s ssa.Value, emit *ssa.Function, three map[string]bool
 	switch x := s.(type) {
 	case *ssa.Phi:
 		for _, e := range x.Edges {
-			if !sliceOfEmitPositions(e, emit, three, oc, depth+1, seen) {
+			if !sliceOfEmitPositions(p, e, emit, three, oc, depth+1, seen) {
 				return false
 			}
 		}
@@ -1386,7 +1460,7 @@ func sliceOfEmitPositions(s ssa.Value, emit *ssa.Function, three map[string]bool
 	case *ssa.Const:
 		return x.IsNil()
 	case *ssa.Slice:
-		return sliceOfEmitPositions(x.X, emit, three, oc, depth+1, seen)
+		return sliceOfEmitPositions(p, x.X, emit, three, oc, depth+1, seen)
 	case *ssa.Alloc:
 		// a zero-length array literal ([]int{})
 		return true
@@ -1394,7 +1468,7 @@ func sliceOfEmitPositions(s ssa.Value, emit *ssa.Function, three map[string]bool
 		return true
 	case *ssa.Call:
 		if ap, ok := isBuiltinCall(x, "append"); ok {
-			if !sliceOfEmitPositions(ap.Call.Args[0], emit, three, oc, depth+1, seen) {
+			if !sliceOfEmitPositions(p, ap.Call.Args[0], emit, three, oc, depth+1, seen) {
 				return false
 			}
 			vals, known := varargsOf(ap.Call.Args[1])
@@ -1402,7 +1476,7 @@ func sliceOfEmitPositions(s ssa.Value, emit *ssa.Function, three map[string]bool
 				return false
 			}
 			for _, v := range vals {
-				if !emitPosition(v, emit, three, oc, depth+1) {
+				if !emitPosition(p, v, emit, three, oc, depth+1) {
 					return false
 				}
 			}
